@@ -380,6 +380,8 @@ def cast(ctx, s, frm, to):
         return f"(({s} : {frm}) : Rat)"
     if to == "Int" and frm == "Nat":
         return f"(({s} : Nat) : Int)"
+    if to == "Nat" and frm == "Int":
+        return f"(Int.toNat {s})"  # only used for range(n): Python's range of a negative count is empty, like toNat
     raise Untranslatable(f"cast {frm} -> {to}")
 
 
